@@ -415,7 +415,53 @@ def decoder_sites(repo: Repo, rep: Report) -> int:
     return total
 
 
+RAW_VIEW = {"reshape", "view", "abs", "float", "double", "to", "clone", "contiguous", "flatten", "unsqueeze", "squeeze", "detach"}
+
+
+def rule_llr_range(repo: Repo, rep: Report) -> int:
+    """The convention must hold for LLR magnitudes 1e-3 .. 1e3: a decision taken from the *product* of a block's raw LLRs
+    (|LLR|^n) underflows float32 to +-0 for n >= 16 at |LLR| = 1e-3, so `prod(llr) > 0` stops reporting the sign parity.
+    Sites: every comparison with 0 inside the soft decoders / LLR utilities whose other side is a prod-reduction of a raw
+    (only reshaped / sliced / abs'd) LLR parameter.  sign(llr).prod() is exact and accepted."""
+    n = 0
+    files = sorted({f for f, _, _ in DECODER_SITES} | {"kaira/models/fec/utils.py", "kaira/models/binary/soft_bit_thresholding.py"})
+    for file in files:
+        mi = repo.module(file)
+        for fi in list(mi.functions.values()) + [m for ci_ in mi.classes.values() for m in ci_.methods.values()]:
+            params = set(fi.params) - {"self", "args", "kwargs"}
+            alias = set(params)
+            for st in stmts_of(fi.body):
+                if isinstance(st, ast.Assign) and len(st.targets) == 1 and isinstance(st.targets[0], ast.Name):
+                    v = st.value
+                    while (isinstance(v, ast.Call) and isinstance(v.func, ast.Attribute) and v.func.attr in RAW_VIEW) or isinstance(v, ast.Subscript):
+                        v = v.func.value if isinstance(v, ast.Call) else v.value
+                    if isinstance(v, ast.Name) and v.id in alias:
+                        alias.add(st.targets[0].id)
+            for c in ast.walk(fi.node):
+                if not (isinstance(c, ast.Compare) and len(c.ops) == 1 and isinstance(c.ops[0], (ast.Lt, ast.Gt, ast.LtE, ast.GtE))):
+                    continue
+                sides = [c.left, c.comparators[0]]
+                if not any(isinstance(s_, ast.Constant) and s_.value in (0, 0.0) and not isinstance(s_.value, bool) for s_ in sides):
+                    continue
+                other = next(s_ for s_ in sides if not (isinstance(s_, ast.Constant) and s_.value in (0, 0.0)))
+                if not (isinstance(other, ast.Call) and ((isinstance(other.func, ast.Attribute) and other.func.attr == "prod") or call_name(other) == "torch.prod")):
+                    continue
+                recv = other.args[0] if call_name(other) == "torch.prod" and other.args else other.func.value
+                v = recv
+                while (isinstance(v, ast.Call) and isinstance(v.func, ast.Attribute) and v.func.attr in RAW_VIEW) or isinstance(v, ast.Subscript):
+                    v = v.func.value if isinstance(v, ast.Call) else v.value
+                n += 1
+                if isinstance(v, ast.Name) and v.id in alias:
+                    rep.violation("LLR-RANGE", fi, f"decision from a product of LLRs: {unparse(c)}", f"`{unparse(recv)}` holds raw LLRs: the product of a block's n values has magnitude |LLR|^n and underflows float32 to +-0 for |LLR| = 1e-3 and n >= 16 (inside the magnitudes the convention must hold for), so the comparison no longer reports the parity of the signs and a consistent word is 'corrected'", node=c)
+                elif any(isinstance(x, ast.Call) and (call_name(x) or "").split(".")[-1] in ("sign", "sgn") for x in ast.walk(recv)):
+                    rep.ok("LLR-RANGE", fi, f"parity from a product of signs: {unparse(c)}", "product of +-1 values is exact", node=c)
+                else:
+                    rep.undecided("LLR-RANGE", fi, f"decision from a product: {unparse(c)}", "operand of the product is neither the raw LLR input nor its sign", node=c)
+    return n
+
+
 def run(repo: Repo, rep: Report, tier: str) -> None:
+    rule_llr_range(repo, rep)
     n_prod = producers(repo, rep)
     n_cons = consumers(repo, rep)
     n_sites = decoder_sites(repo, rep)
